@@ -7,7 +7,8 @@ re-runs on the same Clock after a stop; the tick thread is the Clock's own.  Sch
 preemption DFS with switch points at every source line of clock.py, and seeded random walks.
 Every execution (start, every tick and whether it found the script waiting, call/return of every
 delay with exact virtual instants) is validated by TLC against spec/TraceClock.tla.
-A second family runs whole scripts through the real Machine (logical and raw units, zero delays).
+A second family runs whole scripts through the real Machine in the three unit modes with a time value used by
+several waits: every request the Machine makes of the clock is decided by TLC against Units.DelaySeconds.
 """
 import itertools
 import random
@@ -144,6 +145,63 @@ def explore_task(task):
     return out
 
 
+MACHINE_POP = [{'name': 'A', 'group': 'G', 'location': 'L', 'kind': 'plain', 'zones': 0, 'h': 0, 'w': 0, 'colour': [1, 2, 3, 3500], 'power': 0},
+               {'name': 'B', 'group': 'G', 'location': 'L', 'kind': 'plain', 'zones': 0, 'h': 0, 'w': 0, 'colour': [1, 2, 3, 3500], 'power': 0}]
+
+
+def machine_delays(report, rng, n):
+    """What the Machine asks of the clock: scripts in the three unit modes in which a time value is set once and
+    then used by several waits (explicit, and the implicit one before a command); every request made of the
+    clock is one row (mode, time value, seconds requested) decided by TLC (TraceUnits.DelayOk: seconds in
+    logical and rgb units, milliseconds in raw units, zero stays zero)."""
+    from fractions import Fraction
+    from decimal import Decimal
+    from harness import runner
+    rows, texts = [], {}
+    world = runner.World(MACHINE_POP)
+    try:
+        for i in range(n):
+            mode = ['logical', 'raw', 'rgb'][i % 3]
+            times = [rng.choice(['0', '0.25', '1', '2', '2.5', '30', '300', '1500', '2000.5', '0.001']) for _ in range(rng.randint(1, 3))]
+            lines, expect = ['units ' + mode], []
+            for t in times:
+                lines.append('time ' + t)
+                for _ in range(rng.randint(1, 4)):
+                    lines.append(rng.choice(['wait', 'wait', 'on "A"', 'off "B"', 'set "A"', 'on all', 'set group "G"', 'wait wait']))
+                    expect += [t] * (2 if lines[-1] == 'wait wait' else 1)
+            text = '\n'.join(lines) + '\n'
+            res = runner.run_script(world, text)
+            # a zero delay may be asked of the clock as 0 or not at all
+            waits = [ev[1] for ev in res.events if ev[0] == 'wait' and ev[1] != 0]
+            expect = [t for t in expect if t != '0']
+            if len(waits) != len(expect) or not res.accepted or res.machine_fault:
+                report.violation('machine-delays:count', 'script made %d delay requests, its source has %d waits (%s)' % (
+                    len(waits), len(expect), res.machine_fault or res.errors.strip()), {'text': text})
+                continue
+            for k, (t, secs) in enumerate(zip(expect, waits)):
+                frac = Fraction(Decimal(t))
+                rid = len(rows)
+                rows.append({'id': rid, 'kind': 'delay', 'mode': mode, 'path': 'wait', 't': [frac.numerator, frac.denominator],
+                             'us': int(round(secs * 1000000))})
+                texts[rid] = (text, k)
+    finally:
+        world.close()
+    shards = tlc.split(rows, 4)
+    results = tlc.run_sharded('TraceUnits', shards, timeout=600)
+    report.add_tlc(results)
+    for shard, res in zip(shards, results):
+        done = [p for p in res.printed if p.get('done')]
+        if res.exit != 0 or not done or done[0]['rows'] != len(shard):
+            raise tlc.MachineryError('TraceUnits (machine delays) did not finish a shard:\n' + res.stdout[-1500:])
+        bad = [shard[p['row'] - 1] for p in res.printed if p.get('ok') is False]
+        report.coverage['traces_validated_against_impl'] += len(shard) - len(bad)
+        for row in bad:
+            text, k = texts[row['id']]
+            report.violation('machine-delays:%s' % row['mode'], 'delay request %d of the script asks the clock for %s us; time register %s/%s in %s units'
+                             % (k + 1, row['us'], row['t'][0], row['t'][1], row['mode']), {'text': text, 'row': row})
+    return len(rows)
+
+
 def run(report, replay=None):
     tier, rng = report.tier, random.Random(report.seed)
     n_scen = 60 if tier == 'thorough' else 14
@@ -188,7 +246,8 @@ def run(report, replay=None):
                 sig = 'clock:%s%s' % (clause[:30], ':after-rerun' if rerun else '')
                 report.violation(sig, '%s at event %d of %s (%s)' % (item['why'], item['at'], runs, mode),
                                  {'runs': runs, 'schedule': schedule, 'events': rec['ev'], 'at': item['at']})
-    report.coverage['evaluations'] = len(batch)
+    nrows = machine_delays(report, rng, 600 if tier == 'thorough' else 90)
+    report.coverage['evaluations'] = len(batch) + nrows
     report.coverage['distinct_nontrivial'] = len({(str(meta[r['id']][0]), tuple(meta[r['id']][1])) for r in batch})
     report.coverage['rule'] = 'one record per (delay/work/time-of-day scenario, schedule); distinct by scenario and thread-id sequence'
     report.sample({'scenario': meta[0][0], 'events': batch[0]['ev'][:14]})
